@@ -421,13 +421,27 @@ def header_cases(ctx, res):
     for unknown, uname in (('<u:Unknown xmlns:u="urn:unknown" id="7">kept?</u:Unknown>', "Unknown"),
                            ('<u:h1 xmlns:u="urn:unknown" id="7">kept?</u:h1>', "h1")):
         _header_cases(ctx, res, T, box, declared, unknown, uname)
+    # entries carrying the envelope's own targeting / processing attributes, both SOAP versions
+    for ver, env in (("1.1", ENV), ("1.2", "http://www.w3.org/2003/05/soap-envelope")):
+        tattr = "actor" if ver == "1.1" else "role"
+        for label, attrs in (("to-gateway", 'e:%s="http://gateway.example.com/inbound"' % tattr),
+                             ("to-urn", 'e:%s="urn:node:7"' % tattr),
+                             ("to-next", 'e:%s="%s"' % (tattr, "http://schemas.xmlsoap.org/soap/actor/next" if ver == "1.1" else env + "/role/next")),
+                             ("to-none", 'e:%s="%s/role/none"' % (tattr, "http://www.w3.org/2003/05/soap-envelope")),
+                             ("must-understand", 'e:mustUnderstand="%s"' % ("1" if ver == "1.1" else "true")),
+                             ("must-understand+target", 'e:mustUnderstand="%s" e:%s="urn:node:7"' % ("0" if ver == "1.1" else "false", tattr)),
+                             ("relay", 'e:relay="true"')):
+            unknown = '<u:Routing xmlns:u="urn:unknown" %s>kept?</u:Routing>' % attrs
+            _header_cases(ctx, res, T, box, declared, unknown, "Routing:%s:%s" % (ver, label), env=env)
 
 
-def _header_cases(ctx, res, T, box, declared, unknown, uname):
+def _header_cases(ctx, res, T, box, declared, unknown, uname, env=ENV):
     import zeep
     import zeep.settings
+    ENV = env
+    wsdl = HWSDL if env == globals()["ENV"] else HWSDL.replace("http://schemas.xmlsoap.org/wsdl/soap/", "http://schemas.xmlsoap.org/wsdl/soap12/")
     for strict in (True, False):
-        client = zeep.Client(io.BytesIO(HWSDL.encode()), transport=T(), settings=zeep.settings.Settings(strict=strict))
+        client = zeep.Client(io.BytesIO(wsdl.encode()), transport=T(), settings=zeep.settings.Settings(strict=strict))
         for present in ([0, 1], [0], [1], []):
             entries = [declared[i] for i in present]
             for pos in range(len(entries) + 1):
